@@ -67,10 +67,10 @@ def register(PROPS):
                  '{ADD with owner field absent / = self / = other (as a number and as a user name) / a number that no user has, ADD during which the user data base stops answering at the first or second look-up (one reply, the table consistent with it, the daemon alive), ADD by a peer (uid 4242) whom the user data base does not know with the owner absent / 1000 / alice (must be refused, nothing may change), two instructions in one request, CANCEL (also of unknown and foreign UIDs), '
                  'GET /queue (own and another user\'s), GET /sched, TICK} is executed; the number and kind of REQUEST-STATUS replies, the task '
                  'table with owners, the bodies of the listings (no foreign or stale UID, own queued UIDs present) and the SETUID of every started '
-                 'job are compared with a map<UID, (owner, schedule)> model.  A narrow alphabet (ADD of three UIDs and GET /queue, both peers) reaches depth 6 (thorough 7; 8 and 9 ran clean with the smaller alphabets of earlier rounds), including an ADD whose sender has closed its socket before the daemon answers (the failed write must leave nothing behind for the next client on that descriptor), once with peers 1000/1001 and once with 1000/2040 (uids whose highest bits differ: the index over the per-user change notes files them apart); the dirty list enters the canonical state as it is, order and repetitions included.  Linear "busy" histories reach what depth cannot: 17 acknowledged requests between two checkpoints (the 17th by the same or by another user) followed by the listing, and 700 (thorough also 1500) distinct UIDs of one user next to 3 of another in one daemon life - queue files and listings must hold exactly the submitted UIDs, every UID must be cancellable by its owner, nothing may be left; 40 clients connected at the same time (each has sent half of its request when the others send theirs) must each get the reply to their own request and have their task filed under their own uid; requests of 44 instructions (replies beyond 4096 octets) with the first UID growing by one character over 128 rounds must find the status line of every instruction in the reply.  The client side of the listing (c11_echsq: the unmodified echsq.c run in-process, socket()/connect() handed a socketpair whose far end holds a ready-made reply): for every UID length 1..128 (thorough 1..4096) and every number of UIDs from 1 to what fills 3 (thorough 6) requests plus 2, in the forms list / list -u 0 / list --user=1000 / next / list --brief / list --next -u65534 / list with only one of the two daemons there, every request must be a complete "GET /[u/N/]queue|sched?tuid=..&tuid=.. HTTP/1.1" followed by an empty line, of at most 4096 octets, naming at least one UID; the multiset of UIDs asked of each daemon must equal the argument list (a UID never asked for cannot be listed) and echsq must print the replies in order and exit 0 (non-trivial there = the list had to be split over several requests); argument lists that leave fewer than 14 octets free in echsq\'s 4096-octet request buffer are left out (edge=1 puts them in: the unchanged echsq cuts the request line short there and hangs, e.g. echsq list with 582 UIDs of one character).',
+                 'job are compared with a map<UID, (owner, schedule)> model.  A narrow alphabet (ADD of three UIDs and GET /queue, both peers) reaches depth 6 (thorough 7; 8 and 9 ran clean with the smaller alphabets of earlier rounds), including an ADD whose sender has closed its socket before the daemon answers (the failed write must leave nothing behind for the next client on that descriptor), once with peers 1000/1001 and once with 1000/2040 (uids whose highest bits differ: the index over the per-user change notes files them apart); the dirty list enters the canonical state as it is, order and repetitions included.  Linear "busy" histories reach what depth cannot: 17 acknowledged requests between two checkpoints (the 17th by the same or by another user) followed by the listing, and 700 (thorough also 1500) distinct UIDs of one user next to 3 of another in one daemon life - queue files and listings must hold exactly the submitted UIDs, every UID must be cancellable by its owner, nothing may be left; 40 clients connected at the same time (each has sent half of its request when the others send theirs) must each get the reply to their own request and have their task filed under their own uid; requests of 44 instructions (replies beyond 4096 octets) with the first UID growing by one character over 128 rounds must find the status line of every instruction in the reply.  The client side of the listing (c11_echsq: the unmodified echsq.c run in-process, socket()/connect() handed a socketpair whose far end holds a ready-made reply): for every UID length 1..128 (thorough 1..4096) and every number of UIDs from 1 to what fills 3 (thorough 6) requests plus 2, in the forms list / list -u 0 / list --user=1000 / next / list --brief / list --next -u65534 / list with only one of the two daemons there, every request must be a complete "GET /[u/N/]queue|sched?tuid=..&tuid=.. HTTP/1.1" followed by an empty line, of at most 4096 octets, naming at least one UID; the multiset of UIDs asked of each daemon must equal the argument list (a UID never asked for cannot be listed) and echsq must print the replies in order and exit 0 (non-trivial there = the list had to be split over several requests); argument lists that leave fewer than 14 octets free in echsq\'s 4096-octet request buffer are left out (edge=1 puts them in: the unchanged echsq cuts the request line short there and hangs, e.g. echsq list with 582 UIDs of one character).  Many peers at once: K in {1, 2, 31, 32, 33, 62, 63, 64, 65, 70} peers (64 is the daemon\'s limit), all different users, connect and hold their connections, then send their ADD in order of arrival / reversed / odd ones first: no two connected peers share the per-connection state, a peer is turned away only when 64 are connected, every peer gets exactly one success reply on its own socket and every task belongs to its sender.',
         'note': E2_NOTE + '  Task oids are 32-bit hashes of the UID; the multi-gigabyte table growth reachable with hashes that agree in 25+ low bits is outside the alphabet.',
         'rule': 'as C04',
-        'bound': {'quick': 'depth 4; adds-and-listings lanes depth 6 with two uid pairs; echsq list: every UID length 1..128 x counts up to 3 requests x 8 forms', 'thorough': 'depth 5; adds-and-listings lanes depth 7; echsq list: every UID length 1..4096 x counts up to 6 requests'},
+        'bound': {'quick': 'depth 4; adds-and-listings lanes depth 6 with two uid pairs; up to 70 peers connected at once x 3 orders; echsq list: every UID length 1..128 x counts up to 3 requests x 8 forms', 'thorough': 'depth 5; adds-and-listings lanes depth 7; echsq list: every UID length 1..4096 x counts up to 6 requests'},
         'counter_map': {'states': 'states', 'transitions': 'transitions', 'traces_validated_against_impl': 'traces'},
         'drivers': [
             D('e2_explore', ['prop=C11', 'depth=4', '--case-timeout', '120'], ['prop=C11', 'depth=5', '--case-timeout', '600'], label='depth'),
@@ -79,6 +79,8 @@ def register(PROPS):
             D('e2_explore', ['prop=C11', 'alpha=narrow', 'depth=6', 'user2=2040', '--case-timeout', '120'], ['prop=C11', 'alpha=narrow', 'depth=7', 'user2=2040', '--case-timeout', '600'], label='adds-and-listings-uids-1000+2040'),
             D('e2_explore', ['prop=C11', 'mode=busy', 'variants=6', 'skip=3', '--case-timeout', '120'], ['prop=C11', 'mode=busy', 'variants=6', '--case-timeout', '600'], label='busy', shards=6),
             D('e2_explore', ['prop=C11', 'mode=busy', 'variants=6', 'skip=3', '--case-timeout', '300'], label='busy-asan', variant='asan', shards=6),
+            D('e2_explore', ['prop=C11', 'mode=conns', '--case-timeout', '120'], label='many-peers-at-once', shards=6),
+            D('e2_explore', ['prop=C11', 'mode=conns', '--case-timeout', '300'], label='many-peers-at-once-asan', variant='asan', shards=6),
             D('c11_echsq', ['maxl=128', 'reqs=3', 'edge=1'], ['maxl=4096', 'reqs=6', 'edge=1'], label='echsq-list-requests'),
             D('c11_echsq', ['maxl=128', 'reqs=2', 'edge=1'], ['maxl=300', 'reqs=4', 'edge=1'], label='echsq-list-requests-asan', variant='asan'),
         ],
